@@ -22,6 +22,19 @@ def sigma_narrow():
     return alphabet(NARROW, [G("os", "system")])
 
 
+def deviation_bases(tier):
+    from .. import corpus
+
+    out = []
+    vals = corpus.object_values()
+    pick = range(len(vals) - 1) if tier == "thorough" else [1, 2, 3, 6, 7, 9, 10, 11, 14, 15, 18, 20]
+    for i in pick:
+        for tag, b in corpus.pickles_of(vals[i], protocols=(0, 2, 4) if tier == "quick" else range(6), unframed=False):
+            if len(b) < 400:
+                out.append((f"obj[{i}]/{tag}", b))
+    return out
+
+
 def check(tier):
     rep = Report(PROP, tier)
     register_ext()
@@ -45,6 +58,12 @@ def check(tier):
     from . import c03_corpus
 
     c03_corpus.run(rep, tier)
+    # deviation 1 around natural object pickles (long programs)
+    from .. import deviate
+
+    dsyms = alphabet("NONE STR MARK TUPLE ETUP EDICT REDUCE OBJ NEWOBJ BUILD BINPERSID POP POP_MARK DUP MEMOIZE BINGET0".split(),
+                     [G("os", "system"), INST("os", "system")])
+    deviate.run(PROP, deviation_bases(tier), dsyms, [(oracles, "c03_events")], rep)
     rep.assumptions += [
         "stub world: find_class/persistent_load return inert recording stubs on both sides; NEWOBJ => cls(*args), BUILD => __setstate__ are exact there",
         "reference VM = CPython pure-Python unpickler; programs it rejects are outside the quantifier",
